@@ -108,6 +108,34 @@ Definition http_header_name : re :=
 Definition no_vars : re :=
   RCat (RStar (RAlt (RCls (cs_not ["$"])) (RCat (RChr "$") (RCls cs_digit)))) (ROpt (RChr "$")).
 
+(* ---- UPPER BOUNDS of validators that are parsers, not regular expressions.  Tie (every run): every string the real
+   validator accepts among the one-byte perturbations of the samples (some of them near misses the validator rejects
+   today, e.g. an IPv6 zone) must match the upper bound; a more tolerant parser shows up with the accepted string. *)
+
+(* validateIPorCIDR, validation/policy.go:660  (net.ParseCIDR or net.ParseIP: decimal / hexadecimal digits, dots,
+   colons, one slash; NO zone): accessControl allow / deny entries, rendered bare:  allow VALUE;  deny VALUE; *)
+Definition ip_or_cidr_upper : re :=
+  RPlus (RCls (CS false [(46, 47); (48, 58); (65, 70); (97, 102)])).
+
+(* validateRoutePath, validation/virtualserver.go:1268:  /...  validatePath;  =...  validatePath of the rest;
+   ~...  regexp2.Compile + escaped string (of the whole path, the tilde is an ordinary byte) *)
+Definition route_path_upper : re :=
+  RAlt vs_path (RAlt (RCat (RChr "=") vs_path) (RCat (RChr "~") escaped)).
+
+(* generatePath, internal/configs/virtualserver.go:2263: a regular-expression path is written  MODIFIER dq EXPR dq ,
+   whether or not a space separates the modifier from the expression in the resource; other paths are written raw *)
+Definition strip_space (s : string) : string :=
+  match s with String " " r => r | _ => s end.
+
+Definition dq1 : string := String ch_dq EmptyString.
+
+Definition gen_path (p : string) : string :=
+  match p with
+  | String "~" (String "*" r) => ("~* " ++ dq1 ++ strip_space r ++ dq1)%string
+  | String "~" r => ("~ " ++ dq1 ++ strip_space r ++ dq1)%string
+  | _ => p
+  end.
+
 (* ---- SELECTOR TABLE for action.proxy.rewritePath: which validator language applies and at which kind of site
    the value is rendered depends on the kind of the route path and on the kind of location.
      validator  validateActionProxy (virtualserver.go:1058):  HasPrefix(path, "~") || internal  selects the
@@ -174,6 +202,7 @@ Definition validator_regexes : list (string * re) :=
    ("size", size); ("offset", offset); ("rate", rate); ("proxy_buffers", proxy_buffers);
    ("time", time); ("limit_req_key", limit_req_key); ("ing_rate", ing_rate);
    ("http_header_name", http_header_name); ("no_vars", no_vars);
+   ("ip_or_cidr_upper", ip_or_cidr_upper); ("route_path_upper", route_path_upper);
    ("grpc_service_fixed", grpc_service_fixed);
    ("ts_hash_fixed", ts_hash_fixed); ("sticky_fixed", sticky_fixed)]%string.
 
